@@ -5,10 +5,21 @@ use std::net::SocketAddr;
 
 thread_local! {
     static TAP: RefCell<Option<Vec<(bool, SocketAddr, Bytes)>>> = RefCell::new(None);
+    static SILENT: RefCell<Vec<SocketAddr>> = RefCell::new(Vec::new());
+    static PARKED: RefCell<Vec<tokio::sync::oneshot::Sender<Bytes>>> = RefCell::new(Vec::new());
 }
 
 /// Start capturing: every message handed to a sender on this thread is recorded and not sent.
-pub fn tap_start() { TAP.with(|t| *t.borrow_mut() = Some(Vec::new())); }
+pub fn tap_start() {
+    TAP.with(|t| *t.borrow_mut() = Some(Vec::new()));
+    SILENT.with(|s| s.borrow_mut().clear());
+    PARKED.with(|p| p.borrow_mut().clear());
+}
+/// While capturing, reliable messages to these addresses are never acknowledged (a crashed or silent peer): their
+/// cancel handlers stay pending, neither resolved nor dropped.
+pub fn tap_silence(addresses: Vec<SocketAddr>) { SILENT.with(|s| *s.borrow_mut() = addresses); }
+pub(crate) fn silent(address: &SocketAddr) -> bool { SILENT.with(|s| s.borrow().contains(address)) }
+pub(crate) fn park(sender: tokio::sync::oneshot::Sender<Bytes>) { PARKED.with(|p| p.borrow_mut().push(sender)); }
 /// Take what has been captured so far: (reliable?, destination, bytes).
 pub fn tap_drain() -> Vec<(bool, SocketAddr, Bytes)> {
     TAP.with(|t| t.borrow_mut().as_mut().map(|v| std::mem::take(v)).unwrap_or_default())
